@@ -14,3 +14,4 @@ void reg_lauth();
 void reg_slot();
 void reg_fs();
 void reg_proxy();
+void reg_life();
